@@ -451,7 +451,7 @@ fn array_long() {
     go_array3(3, S_LONG, E_ALL, wit_some);
 }
 
-// @verif family=SEQ thorough=C08,C06 timeout=3600 mem=24
+// @verif family=SEQ thorough=C08,C06,C03,C02 timeout=3600 mem=24
 // @bounds kind=ConIterOfIter<Tracked,OwningProbe> len<=3, buffered chunk size 2; prefix<=2 next(); any pull (single / chunk n<=len+2 / buffered x2); any pull or len query or skip_to_end; single/chunk/len; end in {drop, into_seq_iter all/partly}; drop ledger
 #[kani::proof]
 #[kani::unwind(6)]
